@@ -294,9 +294,19 @@ class C14(object):
         r3.shuffle(adjacent)
         adjacent = adjacent[:40]
         alone |= {b for _, b in adjacent}
+        # F10: "A pre-empted after k lines (KeyboardInterrupt), then B" in one fresh process; B is A itself or another
+        # item.  Whatever the torn application left behind (half-filled memo, half-bound variables) must not show in B
+        r5 = gen.stream(seed, 'C14:interrupt', index)
+        interrupted = []
+        for _ in range(24):
+            a = r5.choice(pool_ + special[:8]) if (pool_ or special) else r5.randrange(len(items))
+            b = a if r5.random() < 0.5 else r5.choice(pool_ or [a])
+            k = r5.choice([1, 2, 4, 8, 15, 30, 60, 120, 250, 500]) + r5.randrange(0, 6)
+            interrupted.append([a, k, b])
+        alone |= {b for _, _, b in interrupted}
         alone = sorted(alone)
         return {'prop': 'C14', 'seed': seed, 'index': index, 'variant': variant, 'hashseeds': seeds,
-                'items': items, 'orders': orders, 'alone': alone, 'adjacent': adjacent}
+                'items': items, 'orders': orders, 'alone': alone, 'adjacent': adjacent, 'interrupted': interrupted}
 
     # ------------------------------------------------------------ execution
     def execute(self, spec, executor_mode=None):
@@ -343,6 +353,17 @@ class C14(object):
                 raise env.HarnessError('replica evaluation child died')
             adjacent_answers.append(reply['answers'][1])
         bump(stats, 'adjacent_pair_evaluations', len(adjacent_answers))
+        interrupted_answers = []
+        for a, k, b in spec.get('interrupted', []):
+            srvs[0].stdin.write(json.dumps({'items': [dict(items[a], interrupt_after=k), items[b]], 'order': [0, 1]}) + '\n')
+        srvs[0].stdin.flush()
+        for a, k, b in spec.get('interrupted', []):
+            reply = json.loads(srvs[0].stdout.readline())
+            if 'died' in reply:
+                raise env.HarnessError('replica evaluation child died')
+            interrupted_answers.append(reply['answers'])
+            if reply['answers'][0].get('interrupted'):
+                bump(stats, 'fault:F10_rule_application_interrupted')
         diverse = len(set(set_orders)) >= 2
         bump(stats, 'replica_evaluations', sum(len(o) for o in spec['orders']))
         bump(stats, 'fault:F6_evaluations_under_other_hashseed',
@@ -411,6 +432,18 @@ class C14(object):
                         f'{ib["lang"]} ({ib["x"]}, {ib["y"]}) evaluated right after ({ia["x"]}, {ia["y"]}) in one fresh process '
                         f'gives {_cats(got.get("res") or [])}, alone it gives {_cats(want.get("res") or [])}', b,
                         kind='history')
+                    break
+        if not violations:
+            for (a, k, b), got in zip(spec.get('interrupted', []), interrupted_answers):
+                want = alone_answers.get(b)
+                if not got[0].get('interrupted') or want is None:
+                    continue
+                if got[1].get('res') != want.get('res') or got[1].get('mutated'):
+                    ia, ib = items[a], items[b]
+                    vio('same_as_alone',
+                        f'{ib["lang"]} {ib["kind"]} ({ib["x"]}, {ib.get("y")}) evaluated after ({ia["x"]}, {ia.get("y")}) had been '
+                        f'interrupted {k} lines into its application gives {_cats(got[1].get("res") or []) if "res" in got[1] else got[1]}, '
+                        f'alone it gives {_cats(want.get("res") or [])}', b, kind='history', after='F10')
                     break
         if not violations:
             self.model_checks(spec, answers[0], stats, vio)
@@ -525,6 +558,7 @@ class C14(object):
         cand['orders'] = [[remap[i] for i in order if i in remap] for order in spec['orders']]
         cand['alone'] = sorted(remap[i] for i in spec.get('alone', []) if i in remap)
         cand['adjacent'] = [[remap[a], remap[b]] for a, b in spec.get('adjacent', []) if a in remap and b in remap]
+        cand['interrupted'] = [[remap[a], k, remap[b]] for a, k, b in spec.get('interrupted', []) if a in remap and b in remap]
         return cand
 
     def evidence_extra(self, stats):
